@@ -98,13 +98,17 @@ impl Scenario for RegistryScn {
     }
     fn setup(&self, _root: usize, w: &mut World) -> (RegH, RegG) {
         let natives = ["uaa", "ubb", "ucc"];
-        let n_native = (self.n_assets + 1) / 2;
+        let many = self.group == "vaults-many";
+        let n_native = if many { 0 } else { (self.n_assets + 1) / 2 };
         let nd: Vec<(&str, u8)> = natives.iter().take(n_native).enumerate().map(|(i, d)| (*d, 6 + i as u8)).collect();
         let hub = deploy_pool_hub(w, &nd);
         let mut assets: Vec<AssetInfo> = vec![];
         let mut ci = 0;
         for i in 0..self.n_assets {
-            if i % 2 == 0 {
+            if many {
+                // more registered children than one default page (10) of the factories' listings holds
+                assets.push(native(&format!("uvault{}", (b'a' + i as u8) as char)));
+            } else if i % 2 == 0 {
                 assets.push(native(natives[i / 2]));
             } else {
                 assets.push(token(&w.new_cw20(&format!("tk{}", (b'a' + ci as u8) as char).repeat(1).to_string().replace("tk", "tkk"), 6 + ci as u8, &[], OWNER)));
@@ -148,6 +152,14 @@ impl Scenario for RegistryScn {
         let router = w.instantiate(w.codes.router, OWNER, &white_whale_std::pool_network::router::InstantiateMsg { terraswap_factory: hub.factory.clone() }, &[], "router", Some(OWNER)).unwrap();
         let h = RegH { hub, vault_factory, ifactory, router, assets };
         let mut g = RegG::default();
+        if many {
+            let mut cx = Cx::default();
+            for i in 0..self.n_assets - 1 {
+                self.step(w, &h, &mut g, &RegAct::CreateVault { a: i }, &mut cx);
+                self.step(w, &h, &mut g, &RegAct::CreateIncentive { a: i }, &mut cx);
+            }
+            assert!(cx.violations.is_empty(), "set-up of the many-vaults registry violates oracles: {:?}", cx.violations);
+        }
         if self.group == "router" {
             // chain 0-1, 1-2, 2-3 with liquidity
             let mut cx = Cx::default();
@@ -195,6 +207,14 @@ impl Scenario for RegistryScn {
                     // removal in two of the six orders
                     v.push(RegAct::RemoveTrio { a: s[0], b: s[1], c: s[2] });
                     v.push(RegAct::RemoveTrio { a: s[2], b: s[0], c: s[1] });
+                }
+            }
+            "vaults-many" => {
+                // one asset inside the first default page, the last ones of the listing, and the unregistered one
+                for a in [0, n - 3, n - 2, n - 1] {
+                    v.push(RegAct::CreateVault { a });
+                    v.push(RegAct::RemoveVault { a });
+                    v.push(RegAct::CreateIncentive { a });
                 }
             }
             "vaults" => {
@@ -280,7 +300,7 @@ impl Scenario for RegistryScn {
             RegAct::CreateVault { a: x } => {
                 let r = w.exec(OWNER, &h.vault_factory, &VF::CreateVault { asset_info: ai(*x), fees: F.vault(), token_factory_lp: false }, &[]);
                 let should = !g.vaults.contains_key(x);
-                cx.check("create.one_child_per_asset_set", r.is_ok() == should, || format!("CreateVault({}) accepted={} exists={}", x, r.is_ok(), !should));
+                cx.check("create.one_child_per_asset_set", r.is_ok() == should, || format!("CreateVault({}) accepted={} exists={} ({:?})", x, r.is_ok(), !should, r.as_ref().err().map(|e| e.msg().chars().rev().take(160).collect::<String>().chars().rev().collect::<String>())));
                 if r.is_ok() {
                     cx.count("vault:created");
                     let addr: Option<String> = w.query(&h.vault_factory, &VFQ::Vault { asset_info: ai(*x) }).unwrap_or(None);
@@ -456,7 +476,7 @@ impl Scenario for RegistryScn {
                 cx.check("pagination.returns_every_entry_exactly_once", acc == listed, || format!("Trios with limit {}: {:?} vs {:?}", limit, acc, listed));
             }
         }
-        if self.group == "vaults" {
+        if self.group.starts_with("vaults") {
             for a in 0..n {
                 let r: Result<Option<String>, String> = w.query(&h.vault_factory, &VFQ::Vault { asset_info: ai(a) });
                 let got = r.unwrap_or(None);
